@@ -673,9 +673,190 @@ def _pinned_multi():
 
 
 # --------------------------------------------------------------------------
+# interleaved iterators of ONE dataset object (zip(ds, ds), an epoch interrupted by another one, nested epochs)
+# --------------------------------------------------------------------------
+def _inter_scripts(rng, nb):
+    """scripts over iterator ids 0..2: ["start", j, 0] = iter(ds); ["next", j, k] = up to k batches; ["drain", j, 0].
+    A generator draws its permutation at its FIRST next, so the draw order is the order of first nexts."""
+    i = rng.randrange(1, nb) if nb >= 2 else 1
+    j = rng.randrange(1, nb) if nb >= 2 else 1
+    pat = rng.choice(["zip", "zip", "interrupt", "interrupt", "interrupt", "nested3", "nested3", "random", "sequential", "abandon"])
+    if pat == "zip":            # for (x, y) in zip(ds, ds)
+        sc = [["start", 0, 0], ["start", 1, 0]]
+        for _ in range(nb + 1):
+            sc += [["next", 0, 1], ["next", 1, 1]]
+    elif pat == "interrupt":    # an outer epoch interrupted after i batches by a complete inner epoch, then resumed
+        sc = [["start", 0, 0], ["next", 0, i], ["start", 1, 0], ["drain", 1, 0], ["drain", 0, 0]]
+    elif pat == "nested3":
+        sc = [["start", 0, 0], ["next", 0, i], ["start", 1, 0], ["next", 1, j], ["start", 2, 0], ["drain", 2, 0],
+              ["drain", 1, 0], ["drain", 0, 0]]
+    elif pat == "random":
+        k = rng.choice([2, 3])
+        sc = [["start", x, 0] for x in range(k)]
+        for _ in range(rng.randrange(2, 3 * nb + 3)):
+            sc.append(["next", rng.randrange(k), rng.randrange(1, 3)])
+        order = list(range(k))
+        rng.shuffle(order)
+        sc += [["drain", x, 0] for x in order]
+    elif pat == "sequential":
+        sc = [["start", 0, 0], ["drain", 0, 0], ["start", 1, 0], ["drain", 1, 0]]
+    else:                       # abandoned mid-epoch, then a fresh epoch
+        sc = [["start", 0, 0], ["next", 0, i], ["start", 1, 0], ["drain", 1, 0]]
+    return pat, sc
+
+
+def gen_inter_spec(rng, target):
+    if target == "file":
+        n = rng.choice([1, 2, 3, 4, 5, 6, 7, 8, 9, 12, 16, rng.randrange(1, 25)])
+        fields = [{"name": "rowid", "dtype": "int64", "shape": [n], "values": list(range(n))}] + \
+                 [gen_field(rng, nm, n) for nm in rng.sample(NAMES, rng.choice([1, 1, 2]))]
+        bs = rng.randrange(1, max(2, n // 2 + 1)) if rng.random() < 0.8 else pick_bs(rng, n)
+        batches = None if rng.random() < 0.7 else rng.randrange(1, n // bs + 2)
+        rows = n if batches is None else min(n, batches * bs)
+        nb = (rows + bs - 1) // bs
+        pat, sc = _inter_scripts(rng, nb)
+        return {"kind": "inter", "target": "file", "pattern": pat, "fields": fields, "batch_size": bs, "batches": batches,
+                "seed": rng.choice([0, 7, 0x12345678, rng.randrange(2 ** 31)]), "script": sc}
+    base = gen_rb_spec(rng, True)
+    rid = 0
+    for b in base["buffers"]:
+        r = b[0]["shape"][0]
+        b[:] = [f for f in b if f["name"] != "unused_extra"]
+        b.append({"name": "rowid", "dtype": "int64", "shape": [r], "values": list(range(rid, rid + r))})
+        rid += r
+    bs = rng.randrange(1, max(2, rid // 2 + 1)) if rng.random() < 0.8 else pick_bs(rng, rid)
+    nb = (rid + bs - 1) // bs
+    pat, sc = _inter_scripts(rng, nb)
+    return {"kind": "inter", "target": "replay", "pattern": pat, "buffers": base["buffers"], "batch_size": bs, "script": sc}
+
+
+def _pinned_inter():
+    f = [{"name": "rowid", "dtype": "int64", "shape": [6], "values": list(range(6))},
+         {"name": "squares", "dtype": "int64", "shape": [6], "values": [i * i for i in range(6)]}]
+    b1 = [{"name": "positions", "dtype": "int64", "shape": [3, 2], "values": [1, 2, 3, 4, 5, 6]},
+          {"name": "mask", "dtype": "bool", "shape": [3, 2], "values": [True] * 6},
+          {"name": "rowid", "dtype": "int64", "shape": [3], "values": [0, 1, 2]}]
+    b2 = [{"name": "positions", "dtype": "int64", "shape": [3, 3], "values": list(range(10, 19))},
+          {"name": "mask", "dtype": "bool", "shape": [3, 3], "values": [True, True, False] * 3},
+          {"name": "rowid", "dtype": "int64", "shape": [3], "values": [3, 4, 5]}]
+    zipsc = [["start", 0, 0], ["start", 1, 0]] + [["next", 0, 1], ["next", 1, 1]] * 4
+    inter = [["start", 0, 0], ["next", 0, 1], ["start", 1, 0], ["drain", 1, 0], ["drain", 0, 0]]
+    nest = [["start", 0, 0], ["next", 0, 1], ["start", 1, 0], ["next", 1, 2], ["start", 2, 0], ["drain", 2, 0], ["drain", 1, 0], ["drain", 0, 0]]
+    out = []
+    for pat, sc in (("zip", zipsc), ("interrupt", inter), ("nested3", nest)):
+        out.append({"kind": "inter", "target": "file", "pattern": pat, "fields": f, "batch_size": 2, "batches": None, "seed": 7, "script": sc})
+        out.append({"kind": "inter", "target": "replay", "pattern": pat, "buffers": [b1, b2], "batch_size": 2, "script": sc})
+    return out
+
+
+def run_inter_impl(spec, tmpdir):
+    """several live iterators of one dataset object; returns, per iterator, the batches it yielded (in its own order),
+    whether it was exhausted, and the order in which the iterators drew their permutation (first next)"""
+    if spec["target"] == "file":
+        from xformer import data as xdata
+        path, stored_t = save_spec(spec, tmpdir)
+    else:
+        from tak.alphazero import data as rbdata
+        bufs = [{f["name"]: mk_tensor(f) for f in b} for b in spec["buffers"]]
+    its, out, done, draw = {}, {}, {}, []
+    with Recorder() as rec:
+        if spec["target"] == "file":
+            seed_state = rec.seed_state(spec["seed"])
+            ds = xdata.Dataset(path, batch_size=spec["batch_size"], batches=spec["batches"], seed=spec["seed"])
+            dts = [(dt_code(v), dt_code(ds.data[k])) for k, v in stored_t.items()]
+            stored = [(k, rows_of(v)) for k, v in stored_t.items()]
+            view = [(k, rows_of(v)) for k, v in ds.data.items()]
+        else:
+            seed_state, dts = None, []
+            ds = rbdata.ReplayBufferDataset(bufs, batch_size=spec["batch_size"], device="cpu")
+            stored = None
+            view = dict_rows(ds.flat_replay_buffer)
+        n0 = len(rec.calls)
+        for kind, j, k in spec["script"]:
+            if kind == "start":
+                its[j], out[j], done[j] = iter(ds), [], False
+                continue
+            todo = k if kind == "next" else 10 ** 9
+            while todo > 0 and not done[j]:
+                if j not in draw:
+                    draw.append(j)
+                try:
+                    b = next(its[j])
+                except StopIteration:
+                    done[j] = True
+                    break
+                out[j].append(dict_rows(b.data))
+                todo -= 1
+        calls = rec.calls[n0:]
+    return {"out": out, "done": done, "draw": draw, "calls": calls, "all_calls": rec.calls, "seed_state": seed_state, "dtypes": dts,
+            "stored": stored, "view": view, "bufs": None if spec["target"] == "file" else [dict_rows(b) for b in bufs]}
+
+
+def oracle_inter(spec, o):
+    """the property's clause per ITERATOR, on the implementation alone: an exhausted iterator has yielded every row of the
+    dataset exactly once, fields aligned, batches of the configured size; an abandoned one no row twice"""
+    view = dict(o["view"])
+    n = len(view["rowid"])
+    bs = spec["batch_size"]
+    for j in o["draw"]:
+        cols = {}
+        for b in o["out"][j]:
+            for k, rows in b:
+                cols.setdefault(k, []).extend(rows)
+        ids = [r[0] for r in cols.get("rowid", [])]
+        det = {"iterator": j, "pattern": spec["pattern"], "row_ids_yielded": ids[:60], "rows": n, "exhausted": o["done"][j]}
+        if o["done"][j] and sorted(ids) != list(range(n)):
+            return ("each stored row exactly once per epoch, for every live iterator of one dataset (interleaved iterators)", det)
+        if len(set(ids)) != len(ids) or any(i < 0 or i >= n for i in ids):
+            return ("each stored row at most once in a partially consumed epoch (interleaved iterators)", det)
+        for k, rows in view.items():
+            if cols.get(k, []) != [rows[i] for i in ids]:
+                return ("all fields of a row kept together (interleaved iterators)", dict(det, field=k))
+        sizes = [len(b[0][1]) for b in o["out"][j]]
+        want = [bs] * (n // bs) + ([n % bs] if n % bs else [])
+        if sizes != want[:len(sizes)] or (o["done"][j] and len(sizes) != len(want)):
+            return ("batches of the configured size, only the last one shorter (interleaved iterators)", dict(det, sizes=sizes[:40]))
+    return None
+
+
+RBI_CTYPE = "list dataset * list Z * Z * bool * list batch"
+RBI_CHECK = ("fun c => let '(bufs, perm, bs, full, obs) := c in "
+             "let e := rb_epoch bufs (map Z.to_nat perm) bs in "
+             "batches_eqb (firstn (length obs) e) obs && (negb full || Nat.eqb (length obs) (length e)) "
+             "&& is_perm_b perm (Z.of_nat (length (get_field POSITIONS (cat_replay_buffer bufs))))")
+RBI_SHOW = "fun c => let '(bufs, perm, bs, full, obs) := c in rb_epoch bufs (map Z.to_nat perm) bs"
+
+
+def inter_cases(spec, o):
+    """file target: ONE case of the file-dataset type - the iterators in draw order are the model's consecutive epochs
+    (`iter` when exhausted, `take k` otherwise), each compared with what THAT iterator yielded.  replay target: one case per
+    iterator - its observed permutation (the k-th randperm call belongs to the k-th iterator that started) and its batches."""
+    h = spec_hash(spec)
+    if spec["target"] == "file":
+        ops = [["iter", 0] if o["done"][j] else ["take", len(o["out"][j])] for j in o["draw"]]
+        sub = {"batch_size": spec["batch_size"], "batches": spec["batches"], "seed": spec["seed"], "ops": ops}
+        oo = {"calls": o["all_calls"], "seed_state": o["seed_state"], "stored": o["stored"], "obs": [o["out"][j] for j in o["draw"]],
+              "dtypes": o["dtypes"]}
+        meta = {"kind": "inter", "hash": h, "input": spec, "draw_order": o["draw"], "model_ops": ops,
+                "impl_batches": {str(j): o["out"][j][:6] for j in o["draw"]}}
+        return "file", [(file_case_term(sub, oo), meta)]
+    out = []
+    for pos, j in enumerate(o["draw"]):
+        perm = o["calls"][pos][2] if pos < len(o["calls"]) else []
+        term = (f"({clist([c_dict(b) for b in o['bufs']])}, {czlist(perm)}, {cz(spec['batch_size'])}, "
+                f"{core.cbool(o['done'][j])}, {c_batches(o['out'][j])})")
+        out.append((term, {"kind": "inter", "hash": f"{h}-{j}", "input": spec, "iterator": j, "draw_position": pos, "perm": perm[:80],
+                           "randperm_calls": len(o["calls"]), "impl_batches": o["out"][j][:6]}))
+    return "replay", out
+
+
+# --------------------------------------------------------------------------
 # driver
 # --------------------------------------------------------------------------
 def _size_of(spec):
+    if spec["kind"] == "inter":
+        fl = spec["fields"] if spec["target"] == "file" else [f for b in spec["buffers"] for f in b]
+        return sum(len(f["values"]) for f in fl) * 3
     if spec["kind"] == "multi":
         return sum(len(f["values"]) for f in spec["fields"] + (spec["fields2"] or [])) * (1 + len(spec["script"]))
     if spec["kind"] == "file":
@@ -1009,6 +1190,76 @@ def _correspondence(run, rng, tmpdir):
     for spec, err in mcrash[:2]:
         run.violation(f"multi-crash-{spec_hash(spec)}", {"clause": "no exception", "input": spec, "exception": err})
 
+    # ---------------- interleaved iterators of one dataset object
+    n_inter = (70, 90) if quick else (700, 900)
+    ispecs = [s for s in _corpus_specs() if s.get("kind") == "inter"] + _pinned_inter()
+    ispecs += [gen_inter_spec(rng, "file") for _ in range(n_inter[0])] + [gen_inter_spec(rng, "replay") for _ in range(n_inter[1])]
+    cif = core.Cases(ID, "interfile", HEADER, FILE_CTYPE, FILE_CHECK, show=FILE_SHOW, shard=30)
+    cir = core.Cases(ID, "interreplay", HEADER, RBI_CTYPE, RBI_CHECK, show=RBI_SHOW, shard=30)
+    ihits, icrash, iass = [], [], []
+    idist = {"file": 0, "replay": 0, "patterns": {}, "iterators": 0, "exhausted_iterators": 0, "abandoned_iterators": 0}
+    iseen = set()
+    isample = []
+    for spec in ispecs:
+        try:
+            o = run_inter_impl(spec, tmpdir)
+        except Exception as e:  # noqa
+            icrash.append((spec, repr(e)))
+            continue
+        which, cases = inter_cases(spec, o)
+        for term, meta in cases:
+            (cif if which == "file" else cir).add(term, meta)
+        iseen.add(spec_hash(spec))
+        idist[spec["target"]] += 1
+        idist["patterns"][spec["pattern"]] = idist["patterns"].get(spec["pattern"], 0) + 1
+        idist["iterators"] += len(o["draw"])
+        idist["exhausted_iterators"] += sum(1 for j in o["draw"] if o["done"][j])
+        idist["abandoned_iterators"] += sum(1 for j in o["draw"] if not o["done"][j])
+        for c in o["all_calls"]:
+            if not is_perm(c[2], c[1]):
+                iass.append({"input": spec, "call": [c[0], c[1], c[2][:50]], "why": "not a permutation"})
+        hit = oracle_inter(spec, o)
+        if hit:
+            ihits.append((spec, hit))
+        if not isample and spec["pattern"] == "interrupt" and _size_of(spec) < 150:
+            isample.append({"input": spec, "impl": {str(j): o["out"][j] for j in o["draw"]}, "draw_order": o["draw"]})
+    _size_shards(cif)
+    _size_shards(cir)
+    ifail, ishard_fail, in1 = cif.run()
+    f2, sf2, in2 = cir.run()
+    ifail, ishard_fail = ifail + f2, ishard_fail + sf2
+    run.oblige(f"correspondence:interleaved-iterators ({in1 + in2} shards, {len(cif) + len(cir)} cases in {len(iseen)} scripts)",
+               not ishard_fail, str(ishard_fail)[:1500])
+    run.oblige("assumed: randperm answers are permutations (interleaved iterators)", not iass, json.dumps(iass[:2])[:1000])
+    run.oblige("impl-oracle:interleaved-iterators (row-id: every live iterator yields each row exactly once, fields aligned)", not ihits,
+               "; ".join(h[1][0] for h in ihits[:5]))
+    run.oblige("correspondence:interleaved-iterators no exception escapes", not icrash, "; ".join(c[1] for c in icrash[:3]))
+    run.count(len(cif) + len(cir), len(iseen),
+              "one evaluation = the batches of the 2-3 iterators of ONE dataset object (Dataset or ReplayBufferDataset) that are alive at the "
+              "same time - zip(ds, ds), an epoch interrupted after i batches by a complete inner epoch and resumed, three nested epochs, random "
+              "interleavings, an abandoned epoch followed by a fresh one - compared inside Coq with the model: each iterator yields ITS OWN "
+              "aligned permutation epoch, the permutations drawn in the order the iterators start; non-trivial = distinct scripts",
+              isample, idist, label="interleaved-iterators")
+    reported = 0
+    ih = {spec_hash(sp): h for sp, h in ihits}
+    for meta in sorted(ifail, key=lambda m: _size_of(m["input"])):
+        if reported >= MAX_REPORT:
+            break
+        hit = ih.get(meta["hash"].split("-")[0])
+        _report(run, cif if meta in cif.metas else cir, meta,
+                hit[0] if hit else "an iterator's batches differ from its own aligned permutation epoch (interleaved iterators)",
+                hit[1] if hit else None)
+        reported += 1
+    ifh = {m["hash"].split("-")[0] for m in ifail}
+    for spec, hit in sorted(ihits, key=lambda sh: _size_of(sh[0])):
+        if reported >= MAX_REPORT:
+            break
+        if spec_hash(spec) not in ifh:
+            run.violation(f"inter-{spec_hash(spec)}", {"clause": hit[0], "model_disagrees": False, "input": spec, "oracle_detail": hit[1]})
+            reported += 1
+    for spec, err in icrash[:2]:
+        run.violation(f"inter-crash-{spec_hash(spec)}", {"clause": "no exception", "input": spec, "exception": err})
+
 
 def search(run, broken):
     """a proof or shard broke but no case disagreed: test the property's own statement on the implementation"""
@@ -1032,6 +1283,14 @@ def search(run, broken):
             if hit:
                 run.violation(f"multi-{spec_hash(spec)}", {"clause": hit[0], "oracle_detail": hit[1], "input": spec})
                 return True
+        for spec in _pinned_inter() + [gen_inter_spec(rng, rng.choice(["file", "replay"])) for _ in range(200)]:
+            try:
+                hit = oracle_inter(spec, run_inter_impl(spec, tmpdir))
+            except Exception as e:  # noqa
+                hit = ("no error escapes", {"exception": repr(e)})
+            if hit:
+                run.violation(f"inter-{spec_hash(spec)}", {"clause": hit[0], "oracle_detail": hit[1], "input": spec})
+                return True
         for _ in range(300):
             spec = gen_rb_spec(rng, True)
             try:
@@ -1051,6 +1310,21 @@ def replay(run, rp):
     spec = rp["input"]
     tmpdir = tempfile.mkdtemp(prefix="verif_c20_")
     try:
+        if spec["kind"] == "inter":
+            try:
+                o = run_inter_impl(spec, tmpdir)
+            except Exception as e:  # noqa
+                return {"violates": True, "exception": repr(e)}
+            which, cases = inter_cases(spec, o)
+            cs = (core.Cases(ID, "replay_inter", HEADER, FILE_CTYPE, FILE_CHECK, show=FILE_SHOW, shard=1) if which == "file"
+                  else core.Cases(ID, "replay_inter", HEADER, RBI_CTYPE, RBI_CHECK, show=RBI_SHOW, shard=1))
+            for term, meta in cases:
+                cs.add(term, meta)
+            hit = oracle_inter(spec, o)
+            failing, shard_fail, _ = cs.run()
+            return {"violates": bool(failing or shard_fail or hit), "model_disagrees": bool(failing), "shard_fail": shard_fail,
+                    "oracle": hit, "draw_order": o["draw"], "impl_output": {str(j): o["out"][j] for j in o["draw"]},
+                    "model_view": [cs.model_view(t) for t in cs.terms]}
         if spec["kind"] == "multi":
             cs = core.Cases(ID, "replay_multi", HEADER, FILE_CTYPE, FILE_CHECK, show=FILE_SHOW, shard=1)
             try:
